@@ -127,14 +127,20 @@ Init ==
     THEN /\ S \in {{p} : p \in Universe}
          /\ S2 = {}
          /\ probes = <<>>
-    ELSE /\ S \in RandomSetOfSubsets(RandSets, RandSize, BigUniverse) \ {{}}
-         /\ S2 \in RandomSetOfSubsets(2, RandSize, BigUniverse)
-         /\ probes = SetSeq(AllProbes(S \cup S2))
+    ELSE /\ S = {}
+         /\ S2 \in {{i} : i \in 1..RandSets}     \* placeholder distinguishing the random draws
+         /\ probes = <<>>
 Grow == /\ Mode = "exhaustive"
         /\ Cardinality(S) < MaxSet
         /\ \E p \in Universe \ S : S' = S \cup {p}
         /\ UNCHANGED <<S2, probes>>
-Next == Grow
+\* random mode: the draw happens in a step so that TLC's workers share the work
+Draw == /\ Mode = "random"
+        /\ S = {}
+        /\ S' = RandomSubset(RandSize, BigUniverse)
+        /\ S2' = RandomSubset(RandSize, BigUniverse)
+        /\ probes' = SetSeq(AllProbes(S' \cup S2'))
+Next == Grow \/ Draw
 Spec == Init /\ [][Next]_vars
 
 (* ---------------- properties checked by TLC ---------------- *)
@@ -151,7 +157,7 @@ LpmRefines  == \A a \in PR : LpmLookup(LpmKeys(S), a) = SetHas(S, a)
 LpmLongest  == \A a \in PR : LpmCandidates(LpmKeys(S), a) # {} =>
                    \A k \in LpmCandidates(LpmKeys(S), a) : k.prefixlen <= LpmBest(LpmKeys(S), a).prefixlen
 MappedAgree == \A a \in PR : a.fam = 4 => SetHas(S, a) = SetHas(S, Adr(6, V4Pad \o a.b))
-ShareSound  == (S2 # {} /\ ShareOk(S, S2)) => \A a \in PR : SetHas(S, a) = SetHas(S2, a)
+ShareSound  == (S # {} /\ S2 # {} /\ ShareOk(S, S2)) => \A a \in PR : SetHas(S, a) = SetHas(S2, a)
 
 (* ---------------- vector emission ---------------- *)
 Vector == LET ss == SetSeq(S) IN
@@ -160,5 +166,5 @@ Vector == LET ss == SetSeq(S) IN
             keys  |-> [i \in 1..Len(ss) |-> LpmKey(ss[i])],
             cases |-> [i \in 1..Len(PSeq) |->
                           [addr |-> PSeq[i], exp |-> SetHas(S, PSeq[i]), exp2 |-> SetHas(S2, PSeq[i])]] ]
-Emit == PrintT(<<"VECTOR", ToJson(Vector)>>)
+Emit == S # {} => PrintT(<<"VECTOR", ToJson(Vector)>>)
 =============================================================================
